@@ -224,3 +224,7 @@ package dagcbor
 //@ func (DecodeOptions).Decode(na, r) (err)
 //@   requires na != nil && r != nil && r.teesink == nil && cfg.AllocationBudget <= 4611686018427387904 && 0 <= cfg.AllocationBudget
 //@   ensures[C03,C06] err == nil && !cfg.DontParseBeyondEnd && !ok ==> r.pos == io.blen(r.data)
+//   the probe for trailing bytes looks at the very reader the tokenizer consumed the item from
+//   (bytes a wrapper read ahead of the tokenizer would otherwise escape the probe)
+//@   after NewDecoder let tokenized = carg1
+//@   before ReadFull assert[C03,C06] defined(tokenized) && carg0 == tokenized
